@@ -277,7 +277,7 @@ def _outcome_counts(rep, paths):
     _guard(rep, got("typed/term") > 500 and got("typed/own:unspecified") > 100 and got("cs/term") > 100
            and got("cs/own:unify") > 100 and got("cs/own:loop") + got("cs/other") > 100,
            "C08: an outcome class is (almost) absent from the replay: %s" % c)
-    _guard(rep, got("hist/term") > 200 and got("hist/own:unspecified") > 50 and got("histx/own") > 100,
+    _guard(rep, got("hist/term") > 150 and got("hist/own:unspecified") > 40 and got("histx/own") > 60,
            "C08: the theory-switching history family is (almost) absent: %s" % c)
 
 
